@@ -608,7 +608,9 @@ func checkStream(p protos.P, specs []wire.Spec, r *core.Rand) (fs []*failure) {
 	}
 	for i := range specs {
 		if pk.sizes[i] != alonePack[i] {
-			return []*failure{{"size", fmt.Sprintf("Pack: frame %d of %d reports size %d in the stream but %d alone", i, len(specs), pk.sizes[i], alonePack[i])}}
+			// (a symptom of its own: what a sender writes for a message must not depend on the messages written before it)
+			fs = append(fs, &failure{"size-pack", fmt.Sprintf("Pack: frame %d of %d reports size %d in the stream but %d alone", i, len(specs), pk.sizes[i], alonePack[i])})
+			break
 		}
 	}
 	stream := bytes.Join(pk.frames, nil)
@@ -616,21 +618,21 @@ func checkStream(p protos.P, specs []wire.Spec, r *core.Rand) (fs []*failure) {
 		reuse := pi >= len(wire.PolicyNames)
 		out, sizes, uerr, clean := unpackStreamR(p, stream, len(specs), wire.Policy(strings.TrimSuffix(pol, "+reused"), r), reuse)
 		if uerr != nil {
-			return []*failure{{"desync", pol + ": " + uerr.Error()}}
+			return append(fs, &failure{"desync", pol + ": " + uerr.Error()})
 		}
 		for i := range specs {
 			if f := compare(expected(specs[i], p), out[i], p); f != nil {
-				return []*failure{{"desync", fmt.Sprintf("%s: frame %d of %d: %s %s", pol, i, len(specs), f.symptom, f.detail)}}
+				return append(fs, &failure{"desync", fmt.Sprintf("%s: frame %d of %d: %s %s", pol, i, len(specs), f.symptom, f.detail)})
 			}
 			if sizes[i] != alone[i] && sizeFail == nil {
 				sizeFail = &failure{"size", fmt.Sprintf("Unpack(%s): frame %d of %d reports size %d in the stream but %d alone", pol, i, len(specs), sizes[i], alone[i])}
 			}
 		}
 		if !clean {
-			return []*failure{{"desync", pol + ": no clean EOF after the last frame"}}
+			return append(fs, &failure{"desync", pol + ": no clean EOF after the last frame"})
 		}
 	}
-	return nil
+	return fs
 }
 
 // blame minimises a failing spec: fields reset to the baseline one at a time while the failure persists.
